@@ -158,7 +158,16 @@ def judge_c11_pairs(rec, snap, by, pairs, bphs, brs):
         rec.check("lists.saenger-reverse-same", wantr == want, lambda: det({"forward": want, "reverse": wantr}))
     # BPh / BR ------------------------------------------------------------
     for kind, lst, acceptors, attr in (("bph", bphs, g3d.PHOSPHATE_ACCEPTORS, "bph"), ("br", brs, g3d.RIBOSE_ACCEPTORS, "br")):
-        cont = g3d.backbone_contacts(snap, acceptors)
+        # very large structures: the contacts of a reported pair are evaluated for that pair of residues only (what
+        # is judged per reported interaction is the same; nothing here needs the contacts of unreported pairs)
+        big = len(snap) > 3000
+        cont = {} if big else g3d.backbone_contacts(snap, acceptors)
+
+        def contacts_of(a, b, cont=cont, big=big, acceptors=acceptors):
+            if not big:
+                return cont.get((a, b), [])
+            return g3d.backbone_contacts([snap[a], snap[b]], acceptors).get((0, 1), [])
+
         per_pair = {}
         seen = set()
         for x in lst:
@@ -176,7 +185,7 @@ def judge_c11_pairs(rec, snap, by, pairs, bphs, brs):
             # several Residue3D objects may carry one identity (a nucleotide listed in two parts): the contact may
             # be between any of the objects of the two residues
             k1, k2 = by.get(g3d.key_of_residue(x.nt1), [i]), by.get(g3d.key_of_residue(x.nt2), [j])
-            cands = [c for a in k1 for b in k2 if a != b for c in cont.get((a, b), [])]
+            cands = [c for a in k1 for b in k2 if a != b for c in contacts_of(a, b)]
             sure = [c for c in cands if c[2] <= g3d.HBOND_MAX and c[4] >= EPS and c[3] not in (None, "?")]
             fuzzy = [c for c in cands if c[4] < EPS or c[3] == "?"]
             classes = {c[3] for c in sure}
